@@ -32,6 +32,18 @@ CLAIMED = {
              design='4/C19',
              note='Trusted: hand model ExprLaws.v (tied by correspondence), reader of get_size, pointer identity via operator==. Hypotheses: no NaN / negative zero constants, identity coherence. '
                   'Known finding: equal() ignores the type of CONSTANT nodes (1 vs true).'),
+ 'C10': dict(technique='Coq proof by structural induction over formula trees typed by a class-level model of checkExpression; exhaustive class-table and formula-verdict correspondence with the real type checker; machine-checked refutation for the known findings',
+             text='C10_accepted_convex_outside: for formulas of any depth over integer predicates and atomic clock comparisons with && || ! imply xor == != forall exists, a type accepted by visitEdge/visitLocation implies convexity, '
+                  'for every formula avoiding the 16 atom shapes that the numeric fall-through clauses type as plain booleans; C10_refuted exhibits the failing formula for those (confirmed on the implementation, recorded as known findings); '
+                  'conjunction completeness. The model is tied by exhaustive comparison of every (operator, class, class) entry and of thousands of formulas placed as guard and as invariant in real models.',
+             design='4/C10',
+             note='Trusted: hand models Typing.v/Convex.v (tied by exhaustive correspondence), extraction, utapdump. Rate/cost atoms are outside the formula language. Known findings: C10-neq-numeric, C10-rel-diff.'),
+ 'C14': dict(technique='Coq proofs of operand-order symmetry of the class-level typing clauses and of structural type equivalence; exhaustive class-table correspondence and both-orders oracle on the real type checker',
+             text='comm_sym for + * == != && || & | ^ <? >? xor over all operand classes, inline-if acceptance symmetry, result-class symmetry up to the int/bool case (refuted there, known finding), symmetry of areEquivalent over structural types '
+                  'and of scalar-set name equivalence with wrappers on either side; tied by comparing every (operator, class, class) and (condition, branch, branch) entry with TypeChecker::checkExpression and by a parameter x argument matrix for reference/const parameters.',
+             design='4/C14',
+             note='Trusted: hand models Typing.v/TypeSym.v (the structural equivalence model is tied at class level only), extraction, utapdump. Classes cost/formula/string are not realisable as operands in the fixture. '
+                  'Two defects repaired by fix: commits; known finding C14-inline-if-int-bool-kind.'),
 }
 NOT_YET = 'check not built yet in this revision (work in progress, see DESIGN.md section 7 staging)'
 m = dict(version=1, setup_cmd='tools/setup.sh',
